@@ -112,7 +112,8 @@ pub fn scenario_strategy() -> BoxedStrategy<Scenario> {
                 let mut left = total;
                 let mut group = vec![];
                 for p in 0..k {
-                    let n = if p + 1 == k { left } else { (left / (k - p) as u32).max(1) };
+                    // uneven fills: any size that leaves at least one share for each later fill
+                    let n = if p + 1 == k { left } else if parts[p % parts.len()].2 % 2 == 0 { (left / (k - p) as u32).max(1) } else { 1 + parts[p % parts.len()].2.unsigned_abs() as u32 % (left - (k - p - 1) as u32) };
                     left -= n;
                     let (d_off, lag, dp) = parts[p % parts.len()];
                     let d_off = if benefits[first_new].kind == "ESO" { 0 } else { d_off };
@@ -125,6 +126,21 @@ pub fn scenario_strategy() -> BoxedStrategy<Scenario> {
             }
         }
         for (symb, off, n, px, lag) in manual {
+            // a third of the manual sales come as a pair that rivals a benefit's sell-to-cover: same symbol, inside its
+            // 5-day window, share counts adding up to its sold shares, prices near its stated sale price
+            let rival = benefits.iter().filter(|b| b.sold.map(|s| s >= 2).unwrap_or(false)).nth((px as usize / 7) % 4);
+            if let (true, Some(b)) = (lag >= 5, rival) {
+                let (sold, sp) = (b.sold.unwrap(), (dec(&b.sale_price) * Decimal::from(100)).trunc().to_string().parse::<i64>().unwrap_or(1000));
+                let td = b.date + Duration::days(off % 6);
+                let n1 = 1 + n % (sold - 1);
+                let (sym, d1, d2) = (b.sym.clone(), px % 400 - 200, (px / 400) % 400 - 200);
+                for (sh, dpx) in [(n1, d1), (sold - n1, d2)] {
+                    let price = (sp + dpx).max(100);
+                    trades.push(Trade { sym: sym.clone(), td, sd: td + Duration::days(lag % 3), shares: sh, price: format!("{}.{:02}", price / 100, price % 100), commission: "4.95".into(), fee: "0".into(), file: 0 });
+                    pre_groups.push(vec![trades.len() - 1]);
+                }
+                continue;
+            }
             let td = base + Duration::days(off);
             trades.push(Trade { sym: if symb { "FOO" } else { "BAR" }.into(), td, sd: td + Duration::days(lag % 3), shares: n, price: format!("{}.{:02}", px / 100, px % 100), commission: "4.95".into(), fee: "0".into(), file: 0 });
             pre_groups.push(vec![trades.len() - 1]);
@@ -235,6 +251,36 @@ fn check(sc: &Scenario, obs: &mut Obs) -> Verdict {
     if !assign(0, &remaining, &pairs, &mut sums, &mut dated, ct, csd) {
         return Verdict::Fail(format!("the trade confirmations not emitted as manual trades cannot be split into one group per sell-to-cover row (same security, traded within 5 days after the benefit, shares adding up to the sold shares, row dated as one of the group): some trade's shares are lost or counted twice\n{out}\n{}", show()));
     }
+    // (f) which group: among the trade sets that could be the sell-to-cover, the one whose average sale price is closest
+    // to the benefit's stated sale price wins.  Checked where the choice is not entangled with another benefit's: no other
+    // benefit with sold shares of the same security within reach of the same trades.
+    for (k, (b, _)) in pairs.iter().enumerate() {
+        let entangled = pairs.iter().enumerate().any(|(j, (o, _))| j != k && o.sym == b.sym && (o.date - b.date).whole_days().abs() <= 5);
+        if entangled { continue; }
+        let in_window = |t: &Trade| t.sym == b.sym && t.td >= b.date && t.td <= b.date + Duration::days(5);
+        let cands: Vec<&Trade> = sc.trades.iter().filter(|t| in_window(t)).collect();
+        let chosen: Vec<&Trade> = remaining.iter().cloned().filter(|t| in_window(t)).collect();
+        if cands.len() > 16 { continue; }
+        let stated = dec(&b.sale_price);
+        let dist = |set: &[&Trade]| -> Decimal { let sh: Decimal = set.iter().map(|t| Decimal::from(t.shares)).sum(); let val: Decimal = set.iter().map(|t| Decimal::from(t.shares) * dec(&t.price)).sum(); (val / sh - stated).abs() };
+        let mut best: Option<(Decimal, Vec<&Trade>)> = None;
+        let mut n_sets = 0;
+        for mask in 1u32..(1u32 << cands.len()) {
+            let set: Vec<&Trade> = (0..cands.len()).filter(|i| mask >> i & 1 == 1).map(|i| cands[i]).collect();
+            if set.iter().map(|t| t.shares).sum::<u32>() != b.sold.unwrap() { continue; }
+            n_sets += 1;
+            let d = dist(&set);
+            if best.as_ref().map(|x| d < x.0).unwrap_or(true) { best = Some((d, set)); }
+        }
+        if n_sets >= 2 { obs.nt("rival-trade-sets-for-one-sell-to-cover"); }
+        if let Some((dmin, bset)) = best {
+            if chosen.is_empty() { continue; }
+            let dc = dist(&chosen);
+            if dc > dmin + Decimal::new(1, 18) {
+                return Verdict::Fail(format!("sell-to-cover of {} ({} shares at stated price {}): the tool took the trades {:?} (average price off by {}), although {:?} add up to the same shares and average closer to the stated price (off by {})\n{out}\n{}", b.note, b.sold.unwrap(), b.sale_price, chosen.iter().map(|t| format!("{}@{}", t.shares, t.price)).collect::<Vec<_>>(), dc, bset.iter().map(|t| format!("{}@{}", t.shares, t.price)).collect::<Vec<_>>(), dmin, show()));
+            }
+        }
+    }
     // (e) every row is accepted by acb (row level)
     let accepted = guard(|| -> Result<(), String> {
         let mut r = acb::util::rw::DescribedReader::from_string("extracted.csv".into(), out.clone());
@@ -258,7 +304,7 @@ fn check(sc: &Scenario, obs: &mut Obs) -> Verdict {
 }
 
 pub fn def() -> PropDef {
-    let mut d = PropDef::new("C19", "scenario-first generation: 1-4 benefit confirmations (RSU; ESPP with or without sell-to-cover; option exercise with 1-3 grants) on 1-2 symbols dated within 12 days of each other, each sold-share count split into 1-3 trades 0-5 days later, plus 0-4 unrelated manual sales (equal share counts, up to day 15), rendered into the text layouts of the repository's fixtures (benefit confirmations in two whitespace styles; pre-2023 multi-trade and post-2023 single-trade confirmations) as .txt files with shuffled names, run through run_with_args. Validity predicate over the output CSV: one Buy per benefit (shares, FMV, date, note); every '(manual trade)' row equals a distinct input trade; the remaining trades can be partitioned (exact search) into one group per sell-to-cover row (same security, within [benefit date, +5 days], shares summing to the sold shares, row dated as a trade of the group); rows ordered by settlement date; every row accepted by acb. The tool's own 'no trades matching' / 'unable to decide' errors are allowed (an error, not a guess) and counted. Non-trivial = >= 2 benefits whose 5-day windows overlap, or equal share counts among the trades, or an error outcome. Distinct = distinct case content.");
+    let mut d = PropDef::new("C19", "scenario-first generation: 1-4 benefit confirmations (RSU; ESPP with or without sell-to-cover; option exercise with 1-3 grants) on 1-2 symbols dated within 12 days of each other, each sold-share count split into 1-3 trades 0-5 days later, in even or uneven fills, plus 0-4 manual sales (equal share counts, up to day 15; a third of them come as a pair rivalling a benefit's sell-to-cover: same window, shares adding up to its sold shares, prices near its stated price), rendered into the text layouts of the repository's fixtures (benefit confirmations in two whitespace styles; pre-2023 multi-trade and post-2023 single-trade confirmations) as .txt files with shuffled names, run through run_with_args. Validity predicate over the output CSV: one Buy per benefit (shares, FMV, date, note); every '(manual trade)' row equals a distinct input trade; the remaining trades can be partitioned (exact search) into one group per sell-to-cover row (same security, within [benefit date, +5 days], shares summing to the sold shares, row dated as a trade of the group); where a benefit's choice is not entangled with another benefit's (no other sold benefit of the same security within 5 days) the group taken must be the candidate set whose share-weighted average price is closest to the stated sale price (all subsets enumerated); rows ordered by settlement date; every row accepted by acb. The tool's own 'no trades matching' / 'unable to decide' errors are allowed (an error, not a guess) and counted. Non-trivial = >= 2 benefits whose 5-day windows overlap, or equal share counts among the trades, or >= 2 rival trade sets for one sell-to-cover, or an error outcome. Distinct = distinct case content.");
     d.assumptions = vec!["text layouts are those of the repository's fixtures; real PDF extraction variance is not modelled"];
     d.subs.push(Box::new(Sub::<Scenario> { name: "scenario", cases_quick: 6_000, cases_thorough: 300_000, strategy: Box::new(|_| scenario_strategy()), to_json: Scenario::to_json, from_json: Scenario::from_json, check }));
     d
